@@ -144,6 +144,49 @@ func (w *srvWorld) runScript(name string, ops []Op) {
 		case "2": // two messages in one write
 			b := append(reqBytes(op.IDs[0]), reqBytes(op.IDs[1])...)
 			_, _ = c.Write(b)
+		case "Q": // a decodable request that the server must refuse as a whole or item by item: exactly one response, no success
+			msg := kmip.NewRequestMessage(kmip.V1_4, &payloads.ActivateRequestPayload{UniqueIdentifier: "ok-odd"})
+			switch op.IDs[0] {
+			case "count-negative":
+				msg.Header.BatchCount = -1
+			case "count-min":
+				msg.Header.BatchCount = -2147483648
+			case "count-more":
+				msg.Header.BatchCount = 3
+			case "count-zero":
+				msg.Header.BatchCount = 0
+			case "version-unsupported":
+				msg.Header.ProtocolVersion = kmip.ProtocolVersion{ProtocolVersionMajor: 9, ProtocolVersionMinor: 9}
+			case "version-zero":
+				msg.Header.ProtocolVersion = kmip.ProtocolVersion{}
+			case "undo":
+				msg.Header.BatchErrorContinuationOption = kmip.BatchErrorContinuationOptionUndo
+			case "unrouted":
+				msg = kmip.NewRequestMessage(kmip.V1_4, &payloads.RevokeRequestPayload{UniqueIdentifier: "x"})
+			case "critical-ext":
+				msg.BatchItem[0].MessageExtension = &kmip.MessageExtension{VendorIdentification: "v", CriticalityIndicator: true}
+			case "max-response-size-negative":
+				msg.Header.MaximumResponseSize = -1
+			}
+			_, _ = c.Write(ttlv.MarshalTTLV(&msg))
+			fr, err := c.RecvFrame()
+			if err != nil {
+				mc.Failf("missing-response: %s op %d: refused request %q got no response: %v", name, oi, op.IDs[0], err)
+				return
+			}
+			var resp kmip.ResponseMessage
+			if err := ttlv.UnmarshalTTLV(fr, &resp); err != nil || len(resp.BatchItem) == 0 {
+				mc.Failf("undecodable-response: %s op %d: response to refused request %q: %v", name, oi, op.IDs[0], err)
+				return
+			}
+			if op.IDs[0] != "max-response-size-negative" {
+				for _, bi := range resp.BatchItem {
+					if bi.ResultStatus == kmip.ResultStatusSuccess {
+						mc.Failf("wrong-status: %s op %d: request %q must be refused but an item succeeded", name, oi, op.IDs[0])
+						return
+					}
+				}
+			}
 		case "P": // a well-formed *response* message sent by the client: the server ignores it and keeps serving
 			resp := kmip.ResponseMessage{Header: kmip.ResponseHeader{ProtocolVersion: kmip.V1_4, BatchCount: 1},
 				BatchItem: []kmip.ResponseBatchItem{{Operation: kmip.OperationActivate, ResponsePayload: &payloads.ActivateResponsePayload{UniqueIdentifier: "stray"}}}}
@@ -300,6 +343,9 @@ func init() {
 	srv("srv-hookok-seq", "accepting connect hook, two sequential requests", SrvCfg{ConnHook: "ok", Conns: [][]Op{{W("ok1"), R("ok1"), W("perr2"), R("perr2"), OpClose}}})
 	srv("srv-2conn-cold", "two connections send their first request concurrently into a server whose codec caches are cold (meant for the build that instruments the codec package too)", SrvCfg{Conns: [][]Op{{W("ok1"), R("ok1"), OpClose}, {W("ok2"), R("ok2"), OpClose}}})
 	srv("srv-3conn-cold", "three connections send their first request concurrently, cold codec caches", SrvCfg{Conns: [][]Op{{W("ok1"), R("ok1"), OpClose}, {W("terr2"), R("terr2"), OpClose}, {W("ok3"), R("ok3"), OpClose}}})
+	odd := func(k string) Op { return Op{K: "Q", IDs: []string{k}} }
+	srv("srv-refused-requests-a", "decodable requests the server must refuse (negative / minimal / larger / zero batch count, unsupported and absent version), each answered once, then a good request", SrvCfg{Conns: [][]Op{{odd("count-negative"), odd("count-min"), odd("count-more"), odd("count-zero"), odd("version-unsupported"), odd("version-zero"), W("ok1"), R("ok1"), OpClose}}})
+	srv("srv-refused-requests-b", "decodable requests the server must refuse (Undo option, unrouted operation, critical extension, negative maximum response size), then a good request", SrvCfg{Conns: [][]Op{{odd("undo"), odd("unrouted"), odd("critical-ext"), odd("max-response-size-negative"), W("ok1"), R("ok1"), OpClose}}})
 	srv("srv-two-seq", "two sequential requests on one connection", SrvCfg{Conns: [][]Op{{W("ok1"), R("ok1"), W("terr2"), R("terr2"), OpClose}}})
 	srv("srv-pipelined", "two requests in one write, then read both", SrvCfg{Conns: [][]Op{{{K: "2", IDs: []string{"ok1", "perr2"}}, R("ok1", "perr2"), OpClose}}})
 	srv("srv-3pipelined-close", "three requests written back to back, then close without reading anything (requests still queued in the connection when it ends)", SrvCfg{Conns: [][]Op{{W("ok1"), W("ok2"), W("ok3"), OpClose}}})
